@@ -90,9 +90,9 @@ rfbInitTrueColourSingleTable24 (char **table, rfbPixelFormat *in,
         inGreen = (i >> in->greenShift) & in->greenMax;
         inBlue  = (i >> in->blueShift)  & in->blueMax;
 
-        outRed   = (inRed   * out->redMax   + in->redMax / 2)   / in->redMax;
-        outGreen = (inGreen * out->greenMax + in->greenMax / 2) / in->greenMax;
-        outBlue  = (inBlue  * out->blueMax  + in->blueMax / 2)  / in->blueMax;
+        outRed   = ((uint32_t)inRed   * out->redMax   + in->redMax / 2)   / in->redMax;
+        outGreen = ((uint32_t)inGreen * out->greenMax + in->greenMax / 2) / in->greenMax;
+        outBlue  = ((uint32_t)inBlue  * out->blueMax  + in->blueMax / 2)  / in->blueMax;
 
 	outValue = ((outRed   << out->redShift)   |
                 (outGreen << out->greenShift) |
@@ -145,7 +145,7 @@ rfbInitOneRGBTable24 (uint8_t *table, int inMax, int outMax, int outShift,
     uint8_t c;
 
     for (i = 0; i < nEntries; i++) {
-      outValue = ((i * outMax + inMax / 2) / inMax) << outShift;
+      outValue = (((uint32_t)i * outMax + inMax / 2) / inMax) << outShift;
       *(uint32_t *)&table[3*i] = outValue;
       if(!rfbEndianTest) {
 	memmove(table+3*i,table+3*i+1,3);
